@@ -359,14 +359,14 @@ class Stream(meta(Iterable, metaclass=StreamMeta)):
     """
     if name == NEXT_NAME:
       raise AttributeError("Streams are iterable, not iterators")
-    return Stream(getattr(a, name) for a in self._data)
+    return Stream(xmap(lambda a: getattr(a, name), self._data))
 
   def __call__(self, *args, **kwargs):
     """
     Returns the results from calling elementwise (where each element is
     assumed to be callable), with the same arguments.
     """
-    return Stream(a(*args, **kwargs) for a in self._data)
+    return Stream(xmap(lambda a: a(*args, **kwargs), self._data))
 
   def append(self, *other):
     """
